@@ -240,6 +240,32 @@ def check_native(prop, spec, tier, seed, replay=None):
             res.notes.append('failure of worker %d did not reproduce 3x through the replay path (%s): counted inconclusive' % (w, outcomes))
             res.inconclusive += 1
 
+    # ---- 4. coverage-guided campaign (libFuzzer) with the same oracle, where a target exists
+    fuzz_info = None
+    if spec.get('fuzz') and not violations:
+        from . import fuzz as fz
+        fs = spec['fuzz']
+        secs = fs['seconds'][tier]
+        fexe = build.fuzz_target(sut, fs['src'], fs['shims'])
+        fr = fz.campaign(fexe, os.path.join(V, fs['corpus']), secs, int(seed), jobs=min(NW, 12))
+        fuzz_info = {'target': fs['src'], 'seconds': secs, 'executions': fr['execs'], 'coverage_edges': fr['cov'], 'features': fr['features'],
+                     'corpus_units': fr['corpus'], 'seed_corpus': fs['corpus'], 'crash_artifacts': len(fr['crashes']), 'timeout_artifacts_ignored': len(fr['timeouts'])}
+        res.evaluations += fr['execs']
+        for i, cpath in enumerate(fr['crashes'][:5]):
+            case = fs['to_case'](open(cpath, 'rb').read())
+            if case is None:
+                continue
+            path = os.path.join(rd, 'fail-fuzz-seed%s-%d.json' % (seed, i))
+            with open(path, 'w') as f:
+                json.dump({'property': prop, 'case': case, 'message': 'libFuzzer artifact ' + os.path.basename(cpath), 'seed': int(seed), 'tier': tier}, f, indent=1)
+            outcomes = [run_replay(exe, path, extra=extra_args)[0] for _ in range(3)]
+            if all(o == 'fail' for o in outcomes):
+                violations.append(path)
+            else:
+                res.notes.append('fuzz artifact %s did not reproduce through the sandboxed replay path (%s): inconclusive' % (os.path.basename(cpath), outcomes))
+                res.inconclusive += 1
+        shutil.rmtree(fr['work'], ignore_errors=True)
+
     wall = time.time() - t0
     cov = {
         'evaluations': res.evaluations,
@@ -254,6 +280,8 @@ def check_native(prop, spec, tier, seed, replay=None):
         'notes': res.notes,
         'sut_tree_hash': sut.hash,
     }
+    if fuzz_info:
+        cov['fuzz'] = fuzz_info
     if res.extra:
         cov['extra'] = res.extra
     if res.survey:
